@@ -6,7 +6,10 @@ use serde::{Deserialize, Serialize};
 #[derive(Serialize, Deserialize, Clone, Debug, PartialEq, Eq)]
 pub enum Flavor {
     Sync,
+    /// every future on its own simulator task (thread-per-task / multi-threaded executor)
     Async,
+    /// all futures on one simulator task: a single-threaded cooperative executor
+    AsyncLocal,
 }
 
 #[derive(Serialize, Deserialize, Clone, Debug, PartialEq, Eq)]
